@@ -56,6 +56,8 @@ RULE = (
     'when atheris can be imported. Every first parse of an edition text in a case is repeated in a pristine '
     'process. non-trivial = prefix that ends strictly inside a line the scanner interprets, or that holds >= 1 '
     'complete edition followed by an incomplete one; distinct = (listing digest, offset)')
+RULE_ADDENDA = (" Also: synthetic listings with multi-byte UTF-8 lines (every cut inside such a character is visited); a history step may reuse the previous step's length on the same path; every case ends with a parse from a second thread.")
+RULE = RULE + RULE_ADDENDA
 ASSUMPTIONS = [
     'listings are the shipped ones and whole-block recombinations of them; a killed job is modelled by '
     'truncation only (no torn or reordered blocks)',
